@@ -193,8 +193,11 @@ CHECKS['C03'] = dict(
          "the Two-Way construction relation (critical_pos < len, 1 <= period/shift <= len, 2*shift >= len), Some(i) => i + len <= "
          "haystack.len() at every level, that every internal call passes the construction needle and respects min_haystack_len, "
          "that Some(i) is returned only after needle[..] was compared equal with haystack[i..i+len] of the CALLER's haystack "
-         "(Rabin-Karp, packed pair, large-period Two-Way, the meta searcher over them; a sub-search must be rebased), the "
-         "small-period shift-memory discipline (shift == 0 or last move == +period and shift + period <= len), completeness of the "
+         "(Rabin-Karp, packed pair, large-period Two-Way, the meta searcher over them; a sub-search must be rebased; for small-period "
+         "Two-Way: everything its shift memory does not vouch for), the "
+         "small-period shift-memory discipline (shift == 0 or last move == +period and shift + period <= len), the suffix-scan step "
+         "rule of the critical-factorisation preprocessing (offset advances by one or restarts at 0 when the candidate moves), the "
+         "period classification (Shift::Small only after the one comparison Two-Way prescribes answered true), completeness of the "
          "packed-pair vector searcher (the strategy for 2..=32-byte needles: None / Some(i) only after every fitting position "
          "(before i) was rejected), the empty needle => Some(0), and the union/fn-pointer pairing. Why 'other': that Two-Way never skips an occurrence is the critical "
          "factorisation theorem and that the rolling hash tracks the window is arithmetic mod 2^32 -- neither is in reach of a "
@@ -204,8 +207,9 @@ CHECKS['C04'] = dict(
     category='other', technique=SUBTECH,
     text="Mirror image of C03 for memmem::rfind / FinderRev::rfind: SearcherRev strategy table, reverse Two-Way relation "
          "(1 <= critical_pos <= len, ...), index range, verified offset for reverse Rabin-Karp / large-period reverse Two-Way / the "
-         "meta searcher, reverse shift-memory discipline (shift == len, or last move == -period and shift >= period), empty needle "
-         "=> Some(haystack.len()). Completeness of reverse Two-Way / rolling hash not decided.",
+         "meta searcher (small period: needle[..shift]), reverse shift-memory discipline (shift == len, or last move == -period and "
+         "shift >= period), reverse suffix-scan step rule and period classification (is_prefix of the last `period` bytes of v "
+         "against u), empty needle => Some(haystack.len()). Completeness of reverse Two-Way / rolling hash not decided.",
     note=SUBNOTE, design_ref='5/C04')
 CHECKS['C08'] = dict(
     category='other', technique=SUBTECH + '; plus a documented pen-and-paper induction over call histories',
@@ -219,8 +223,8 @@ CHECKS['C08'] = dict(
     note=SUBNOTE + '; the induction over histories is by hand', design_ref='5/C08')
 CHECKS['C12'] = dict(
     category='other', technique=SUBTECH,
-    text="Per building block: Two-Way fwd/rev construction relation, index range, verified offset (large period), shift-memory "
-         "discipline (small period); Rabin-Karp fwd/rev index range and verified offset (a hash hit alone never answers); "
+    text="Per building block: Two-Way fwd/rev construction relation, suffix-scan step rule, period classification, index range, "
+         "verified offset (large period: whole needle; small period: what the memory does not vouch for), shift-memory discipline; Rabin-Karp fwd/rev index range and verified offset (a hash hit alone never answers); "
          "Shift-Or new returns None exactly when len > 15 and remembers the length, index range; packed-pair new/with_pair store "
          "the pair and needle bytes given; packed-pair find is decided COMPLETELY on its documented domain (documented panic exact, "
          "verified offset, and None/Some(i) only after every fitting position (before i) was rejected -- leftmost occurrence, "
